@@ -7,7 +7,7 @@
 (* the specification's own tree builder (verdict and first offending       *)
 (* token) and emits the scenario; the replay compares the library.         *)
 (***************************************************************************)
-EXTENDS AidlParse, Json, IOUtils
+EXTENDS AidlParse, AidlGrammar, Json, IOUtils
 
 Depth == atoi(IOEnv.DEPTH)
 
@@ -89,8 +89,16 @@ Verdict(s, f) == LET tk == [k |-> [j \in DOMAIN DocOf(s, f) |-> DocOf(s, f)[j][1
 
 Emit == PrintT("SCEN " \o ToJson([slot |-> slot, fill |-> fill, v |-> Verdict(slot, fill)]))
 
-\* design-level sanity: every frame with a sensible filling is a sentence (the frames are well-formed)
-FramesOK == \A s \in DOMAIN Frames : TRUE
+\* the two statements of the grammar agree on every enumerated token string: the declarative pushdown machine
+\* (AidlGrammar) and the deterministic tree builder (AidlParse) give the same verdict and the same first
+\* offending token
+GrammarAgrees ==
+  LET doc == DocOf(slot, fill)
+      kinds == [j \in DOMAIN doc |-> doc[j][1]]
+      tk == [k |-> kinds, x |-> [j \in DOMAIN doc |-> doc[j][2]], pi |-> [j \in DOMAIN doc |-> j]]
+      pr == ParseToks(tk)
+      g == Recognise(kinds)
+  IN pr.ok = g.ok /\ pr.err = g.err
 
 EmitFrames == PrintT("FRAMES " \o ToJson([s \in DOMAIN AllFrames |-> [pre |-> W(AllFrames[s].pre), suf |-> W(AllFrames[s].suf)]]))
               /\ PrintT("LEX " \o ToJson([v \in Vocab |-> Tok(v)]))
